@@ -8,10 +8,12 @@ import (
 	"encoding/binary"
 	"encoding/gob"
 	"fmt"
+	plz4 "github.com/pierrec/lz4/v4"
 	"os"
 	"path/filepath"
 	"reflect"
 	"time"
+	"verif/ref/refseg"
 
 	"github.com/datastax/go-cassandra-native-protocol/client"
 	"github.com/datastax/go-cassandra-native-protocol/compression/lz4"
@@ -421,6 +423,27 @@ func BuildCorpus(thorough bool) int {
 			}
 		}
 	}
+	// segments whose fields disagree with each other but whose CRCs are right (a mutation that leaves a
+	// checksum stale never gets past the checksum): the declared uncompressed length against what the block
+	// really expands to, and truncated / extended blocks under a matching CRC-32. Built with the reference
+	// segment encoder; the unmutated item itself is one of the cases that is run.
+	for _, n := range []int{33, 300, 1000} {
+		for _, class := range []string{"p7", "text"} {
+			p := gen.Payload(n, class)
+			cb := make([]byte, plz4.CompressBlockBound(n))
+			m, err := plz4.CompressBlock(p, cb, nil)
+			if err != nil || m == 0 {
+				continue
+			}
+			block := cb[:m]
+			for _, ul := range []int{1, n - 1, n + 1, 2 * n, 131071} {
+				add(Item{Kind: "segment", Name: fmt.Sprintf("lz4-declared%d-of-%d/%s", ul, n, class), Comp: "LZ4", Bytes: refseg.Compressed(block, ul, true)})
+			}
+			add(Item{Kind: "segment", Name: fmt.Sprintf("lz4-block-truncated/%d/%s", n, class), Comp: "LZ4", Bytes: refseg.Compressed(block[:m-1], n, true)})
+			add(Item{Kind: "segment", Name: fmt.Sprintf("lz4-block-extended/%d/%s", n, class), Comp: "LZ4", Bytes: refseg.Compressed(append(append([]byte{}, block...), 0), n, false)})
+			add(Item{Kind: "segment", Name: fmt.Sprintf("lz4-raw-declared-compressed/%d/%s", n, class), Comp: "LZ4", Bytes: refseg.Compressed(p, n, true)})
+		}
+	}
 	// CQL values: reference encodings for every type x small values (with nulls)
 	types := cqlTypes()
 	for ti, dt := range types {
@@ -522,7 +545,10 @@ func load() {
 func Describe(item, mut int) interface{} {
 	load()
 	it := corpus[item]
-	_, what := mutantOf(it, mut)
+	what := "the corpus item itself"
+	if mut > 0 {
+		_, what = mutantOf(it, mut-1)
+	}
 	return map[string]interface{}{"kind": it.Kind, "name": it.Name, "version": it.Version, "compression": it.Comp, "valid_bytes_hex": fmt.Sprintf("%x", it.Bytes), "mutation": what}
 }
 
@@ -572,7 +598,13 @@ func msgCodec(op primitive.OpCode) message.Codec {
 // run executes one mutant; reencode selects the C05 re-encode clause instead of the panic oracle.
 func run(item, mut int, reencode bool) []iso.Finding {
 	it := corpus[item]
-	b, what := mutantOf(it, mut)
+	var b []byte
+	what := "the corpus item itself"
+	if mut >= 0 {
+		b, what = mutantOf(it, mut)
+	} else {
+		b = append([]byte{}, it.Bytes...)
+	}
 	var fs []iso.Finding
 	switch it.Kind {
 	case "frame":
@@ -719,16 +751,10 @@ func run(item, mut int, reencode bool) []iso.Finding {
 }
 
 func init() {
+	// case 0 of every item is the item itself (for the deliberately inconsistent items of the corpus it is the
+	// interesting one); cases 1.. are its mutants
 	iso.Register(&iso.Family{Name: "c04", Load: load, Items: func() int { return len(corpus) }, Mutants: func(i int) int { return countOf(corpus[i]) + 1 },
-		Run: func(item, mut int) []iso.Finding {
-			if mut == countOf(corpus[item]) {
-				mut = -1 // the unmutated encoding itself
-				it := corpus[item]
-				_ = it
-				return runPlain(item)
-			}
-			return run(item, mut, false)
-		}})
+		Run: func(item, mut int) []iso.Finding { return run(item, mut-1, false) }})
 	iso.Register(&iso.Family{Name: "c05-reencode", Load: load, Items: func() int {
 		n := 0
 		for _, it := range corpus {
@@ -754,31 +780,16 @@ func frameIdx(i int) int {
 	return frameIndex[i]
 }
 
-// runPlain feeds the valid encoding itself to the entry points (a sanity case: no finding expected).
-func runPlain(item int) []iso.Finding {
-	it := corpus[item]
-	save := corpus[item].Bytes
-	_ = save
-	// reuse run() with a mutation that changes nothing: append zero bytes is not neutral, so call the entry points through mutant 'truncate to len' = identity is not in the index space; decode directly
-	var fs []iso.Finding
-	switch it.Kind {
-	case "frame":
-		codec := fcheck.Codec(primitive.Compression(it.Comp))
-		guard(&fs, it, "the valid encoding", []entry{{"DecodeFrame", func() { _, _ = codec.DecodeFrame(bytes.NewReader(it.Bytes)) }}})
-	}
-	return fs
-}
-
 // DescribeReencode maps a c05-reencode case to its description.
 func DescribeReencode(item, mut int) interface{} {
 	load()
-	return Describe(frameIdx(item), mut)
+	return Describe(frameIdx(item), mut+1)
 }
 
 // RunOne executes one case in this process (debug / replay aid).
 func RunOne(item, mut int) []iso.Finding {
 	load()
-	return run(item, mut, false)
+	return run(item, mut-1, false) // case numbering of the c04 family: 0 is the item itself
 }
 
 // KindStats returns items and mutants per corpus kind.
